@@ -329,3 +329,170 @@ Theorem gname_eqb_trans a b c : gname_eqb a b = true -> gname_eqb b c = true -> 
 Proof. destruct a, b, c; simpl; try discriminate; eauto using term_eqb_trans. Qed.
 Theorem gname_default a : gname_eqb None a = true <-> a = None.
 Proof. destruct a; simpl; split; congruence. Qed.
+
+(* ====================== the calls made on the Hasher ====================== *)
+Lemma calls_bytes_app a b : calls_bytes (a ++ b) = calls_bytes a ++ calls_bytes b.
+Proof. apply flat_map_app. Qed.
+Lemma calls_bytes_str s : calls_bytes (calls_str s) = hash_str s.
+Proof. unfold calls_bytes, calls_str, hash_str. cbn [flat_map snd]. rewrite app_nil_r. reflexivity. Qed.
+Lemma calls_bytes_chars l : calls_bytes (map call_char l) = flat_map (le_bytes 4) l.
+Proof. induction l as [|c l IH]; [reflexivity|]. unfold calls_bytes in *. simpl map. simpl flat_map at 1. rewrite IH. reflexivity. Qed.
+
+(* a boundary-insensitive hasher sees the byte stream of Common/Term.v *)
+Lemma calls_bytes_kind k : calls_bytes (calls_kind k) = le_bytes 8 (kind_rank k).
+Proof. unfold calls_bytes, calls_kind. cbn [flat_map snd]. apply app_nil_r. Qed.
+Theorem hash_calls_bytes t : calls_bytes (hash_calls t) = hash_stream t.
+Proof.
+  induction t as [s|s|l d|l g|s IHs p IHp o IHo|s]; cbn [hash_calls hash_stream];
+    rewrite calls_bytes_app, calls_bytes_kind; apply f_equal.
+  - apply calls_bytes_str.
+  - apply calls_bytes_str.
+  - rewrite calls_bytes_app, !calls_bytes_str. reflexivity.
+  - rewrite calls_bytes_app, calls_bytes_str. apply f_equal.
+    change (call_char 64 :: map call_char (lower g)) with ([call_char 64] ++ map call_char (lower g)).
+    rewrite calls_bytes_app, calls_bytes_chars. reflexivity.
+  - rewrite !calls_bytes_app, IHs, IHp, IHo. reflexivity.
+  - apply calls_bytes_str.
+Qed.
+
+Lemma hash_calls_canon a : hash_calls (canon a) = hash_calls a.
+Proof.
+  induction a as [s|s|l d|l t|s IHs p IHp o IHo|s]; simpl; auto.
+  - rewrite lower_idem. reflexivity.
+  - rewrite IHs, IHp, IHo. reflexivity.
+Qed.
+
+(* equal terms make the same calls on the hasher ... *)
+Theorem eq_same_hash_calls a b : term_eqb a b = true -> hash_calls a = hash_calls b.
+Proof.
+  intros H. apply term_eqb_canon in H.
+  rewrite <- (hash_calls_canon a), H. apply hash_calls_canon.
+Qed.
+(* ... hence the same digest with EVERY hasher, whatever it does with the boundaries of the calls *)
+Theorem eq_same_digest (S : Type) (step : S -> hcall -> S) (s0 : S) a b :
+  term_eqb a b = true -> run_hasher step s0 a = run_hasher step s0 b.
+Proof. intros H. unfold run_hasher. rewrite (eq_same_hash_calls a b H). reflexivity. Qed.
+
+Lemma hcall_eqb_spec x y : hcall_eqb x y = true <-> x = y.
+Proof.
+  destruct x as [m1 b1], y as [m2 b2]. unfold hcall_eqb. simpl.
+  rewrite andb_true_iff, N.eqb_eq, str_eqb_eq. split; [intros [-> ->]; reflexivity | intros E; injection E; auto].
+Qed.
+Theorem hash_calls_ok_spec t obs : hash_calls_ok t obs = true <-> obs = hash_calls t.
+Proof. unfold hash_calls_ok. rewrite (list_eqb_spec hcall_eqb hcall_eqb_spec). split; congruence. Qed.
+(* what is accepted for a term is accepted for every equal term, and only the model's calls are accepted *)
+Theorem hash_calls_ok_eq a b obs : term_eqb a b = true -> hash_calls_ok a obs = hash_calls_ok b obs.
+Proof. intros H. unfold hash_calls_ok. rewrite (eq_same_hash_calls a b H). reflexivity. Qed.
+
+(* NsTerm: the calls are those of the equal IRI *)
+Theorem ns_hash_is_default ns sfx other :
+  ns_iri_eqb ns sfx other = true -> ns_hash_calls ns sfx = hash_calls (Iri other).
+Proof.
+  intros H. rewrite ns_term_eq_is_default in H. unfold ns_hash_calls. apply eq_same_hash_calls. exact H.
+Qed.
+Lemma utf8_app a b : utf8 (a ++ b) = utf8 a ++ utf8 b.
+Proof. apply flat_map_app. Qed.
+(* feeding namespace and suffix in two calls gives the same bytes (SipHash cannot tell) but never the same calls *)
+Theorem ns_split_same_bytes ns sfx : calls_bytes (ns_split_calls ns sfx) = hash_stream (Iri (ns ++ sfx)).
+Proof.
+  unfold ns_split_calls, calls_bytes, calls_kind. cbn [flat_map app snd hash_stream kind_of hash_str].
+  unfold hash_str. rewrite utf8_app, <- !app_assoc. reflexivity.
+Qed.
+Theorem ns_split_other_calls ns sfx : hash_calls_ok (Iri (ns ++ sfx)) (ns_split_calls ns sfx) = false.
+Proof.
+  unfold hash_calls_ok, ns_split_calls. cbn [hash_calls kind_of calls_kind calls_str app list_eqb].
+  unfold hcall_eqb at 3. cbn [fst m_u8 m_write]. rewrite !andb_false_r. reflexivity.
+Qed.
+
+(* ====================== the string stashes ====================== *)
+Lemma stash_mem_in s st : stash_mem s st = true <-> In s st.
+Proof.
+  unfold stash_mem. rewrite existsb_exists. split.
+  - intros [x [Hx E]]. apply str_eqb_eq in E. subst. exact Hx.
+  - intros H. exists s. split; [exact H | apply str_eqb_refl].
+Qed.
+Lemma find_str s st : In s st -> find (str_eqb s) st = Some s.
+Proof.
+  induction st as [|a st IH]; simpl; [tauto|]. intros H.
+  destruct (str_eqb s a) eqn:E; [apply str_eqb_eq in E; subst; reflexivity|].
+  destruct H as [->|H]; [rewrite str_eqb_refl in E; discriminate | auto].
+Qed.
+Lemma stash_add_in st s x : In x (stash_add st s) <-> In x st \/ x = s.
+Proof.
+  unfold stash_add. destruct (stash_mem s st) eqn:E.
+  - apply stash_mem_in in E. split; [auto | intros [H| ->]; auto].
+  - simpl. split; [intros [<-|H]; auto | intros [H| ->]; auto].
+Qed.
+(* copy_str hands out the very text it was given *)
+Theorem copy_str_spec st s : copy_str st s = (stash_add st s, s).
+Proof.
+  unfold copy_str, stash_get. rewrite (find_str s (stash_add st s)); [reflexivity|].
+  apply stash_add_in. auto.
+Qed.
+Lemma copy_term_spec t : forall st, copy_term st t = (fold_left stash_add (term_strs t) st, t).
+Proof.
+  induction t as [s|s|l d|l g|s IHs p IHp o IHo|s]; intros st; cbn [copy_term term_strs];
+    rewrite ?copy_str_spec; try reflexivity.
+  rewrite IHs, IHp, IHo, !fold_left_app. reflexivity.
+Qed.
+Lemma copy_terms_spec ts : forall st, copy_terms st ts = (fold_left stash_add (flat_map term_strs ts) st, ts).
+Proof.
+  induction ts as [|t r IH]; intros st; cbn [copy_terms flat_map]; [reflexivity|].
+  rewrite copy_term_spec, IH, fold_left_app. reflexivity.
+Qed.
+(* a stashed copy is the SAME term: no normalisation of any kind (scheme / host / percent-encoding case,
+   dot segments, ports, NFC, tag case ...), whatever the stash already holds *)
+Theorem copy_term_same st t : snd (copy_term st t) = t.
+Proof. rewrite copy_term_spec. reflexivity. Qed.
+Theorem copy_term_eqb st t : term_eqb t (snd (copy_term st t)) = true.
+Proof. rewrite copy_term_same. apply term_eqb_refl. Qed.
+Theorem copy_term_hash st t : hash_calls (snd (copy_term st t)) = hash_calls t.
+Proof. rewrite copy_term_same. reflexivity. Qed.
+Theorem copy_terms_same st ts : snd (copy_terms st ts) = ts.
+Proof. rewrite copy_terms_spec. reflexivity. Qed.
+(* distinct terms stay distinct (however "equivalent" their IRIs look), equal terms stay equal *)
+Theorem copy_term_inj st1 st2 a b : snd (copy_term st1 a) = snd (copy_term st2 b) -> a = b.
+Proof. rewrite !copy_term_same. auto. Qed.
+
+Lemma fold_add_in l : forall st x, In x (fold_left stash_add l st) <-> In x st \/ In x l.
+Proof.
+  induction l as [|s l IH]; intros st x; simpl; [tauto|].
+  rewrite IH, stash_add_in. split; [intros [[H|H]|H]; auto | intros [H|[H|H]]; auto].
+Qed.
+Lemma stash_add_nodup st s : NoDup st -> NoDup (stash_add st s).
+Proof.
+  intros H. unfold stash_add. destruct (stash_mem s st) eqn:E; [exact H|].
+  constructor; [|exact H]. intros Hin. apply stash_mem_in in Hin. congruence.
+Qed.
+Lemma fold_add_nodup l : forall st, NoDup st -> NoDup (fold_left stash_add l st).
+Proof. induction l as [|s l IH]; intros st H; simpl; [exact H|]. apply IH, stash_add_nodup, H. Qed.
+(* the stash holds exactly the strings of what was copied into it (and what it held before), each once *)
+Theorem stash_content st t x : In x (fst (copy_term st t)) <-> In x st \/ In x (term_strs t).
+Proof. rewrite copy_term_spec. apply fold_add_in. Qed.
+Theorem stash_nodup st t : NoDup st -> NoDup (fst (copy_term st t)).
+Proof. rewrite copy_term_spec. apply fold_add_nodup. Qed.
+Theorem stash_run_content ts x : In x (fst (copy_terms [] ts)) <-> In x (flat_map term_strs ts).
+Proof. rewrite copy_terms_spec. cbn [fst]. rewrite fold_add_in. simpl. tauto. Qed.
+Theorem stash_run_nodup ts : NoDup (fst (copy_terms [] ts)).
+Proof. rewrite copy_terms_spec. apply fold_add_nodup. constructor. Qed.
+(* copying again changes nothing *)
+Lemma fold_add_id l : forall st, (forall x, In x l -> In x st) -> fold_left stash_add l st = st.
+Proof.
+  induction l as [|s l IH]; intros st H; simpl; [reflexivity|].
+  assert (E : stash_add st s = st).
+  { unfold stash_add. assert (M : stash_mem s st = true) by (apply stash_mem_in, H; simpl; auto). rewrite M. reflexivity. }
+  rewrite E. apply IH. intros x Hx. apply H. simpl; auto.
+Qed.
+Theorem copy_term_idem st t : copy_term (fst (copy_term st t)) t = (fst (copy_term st t), t).
+Proof.
+  rewrite !copy_term_spec. cbn [fst]. f_equal. apply fold_add_id.
+  intros x Hx. apply fold_add_in. auto.
+Qed.
+(* what the harness checker accepts: the copies handed out spell the originals *)
+Theorem stash_run_ok_spec ts copies len :
+  stash_run_ok ts copies len = true ->
+  copies = ts /\ len = N.of_nat (length (fst (copy_terms [] ts))).
+Proof.
+  unfold stash_run_ok. rewrite copy_terms_spec. cbn [fst]. rewrite andb_true_iff, N.eqb_eq.
+  unfold terms_same. rewrite (list_eqb_spec term_same term_same_spec). intros [-> ->]. auto.
+Qed.
